@@ -34,7 +34,7 @@ Definition dominant (mx : nat) (s : list B) (q : nat) : Prop :=
 (* the same as a boolean, for computation *)
 Definition dominantb (mx : nat) (s : list B) (q : nat) : bool :=
   N.ltb 0 (cand s q) &&
-  forallb (fun p => (p =? q) || (p <? 4) || negb (p mod 4 =? q mod 4) || N.ltb (cand s p) (cand s q))
+  forallb (fun p => (p =? q) || (p <? 4) || (q + mx <=? p) || negb (p mod 4 =? q mod 4) || N.ltb (cand s p) (cand s q))
           (seq (q + 1 - mx) (2 * mx - 1)).
 
 End Resync.
